@@ -226,8 +226,10 @@ func (rule *RuleShellcheck) runShellcheck(src, shell string, pos *Pos) {
 		for _, err := range errs {
 			// Consider the first line is setup for running shell which was implicitly added for better check
 			line := err.Line - 1
-			msg := strings.TrimSuffix(err.Message, ".") // Trim period aligning style of error message
-			rule.Errorf(pos, "shellcheck reported issue in this script: SC%d:%s:%d:%d: %s", err.Code, err.Level, line, err.Column, msg)
+			// Trim period aligning style of error message. The texts come from the output of the external
+			// command. Keep the message in one line whatever they contain
+			msg := oneLine(strings.TrimSuffix(err.Message, "."))
+			rule.Errorf(pos, "shellcheck reported issue in this script: SC%d:%s:%d:%d: %s", err.Code, oneLine(err.Level), line, err.Column, msg)
 		}
 
 		return nil
